@@ -127,19 +127,36 @@ IF_PROBE = """function F
   input Real u; input Real w; output Real a; output Real b;
 algorithm
   a := u; b := w;
-  if a > 0 then a := a - 5; b := 1; else a := a; b := 2; end if;
+  %s
 end F;
 model P input Real u; input Real w; Real p; Real q; equation (p, q) = F(u, w); end P;
 """
+# witness if-statements: (body, (u, w), sequential result (a, b), result of the per-variable merge before d551655)
+IF_WITNESSES = [
+    # the condition reads a variable the statement assigns; b's values read nothing assigned before
+    ("if a > 0 then a := a - 5; b := 1 + w; else a := a + 5; b := 3 * w; end if;", (3.0, 2.0), (-2.0, 3.0), (-2.0, 6.0)),
+    # the branches assign in different orders and read each other
+    ("if u > 0 then a := 1; b := a + 10; else b := 5; a := b + 100; end if;", (-1.0, 0.0), (105.0, 5.0), (100.0, 5.0)),
+    # the condition reads an assigned variable and b's values read it too
+    ("if a > 0 then a := a - 5; b := a + 1; else a := a + 5; b := a + 2; end if;", (3.0, 0.0), (-2.0, -1.0), (-2.0, 0.0)),
+]
 
 
 def probe_if():
-    """which exitIfStatement does this tree have?  sequential: b = 1 for a = 3; merged per variable: b = 2"""
+    """which exitIfStatement does this tree have?  All witnesses sequential -> "sequential"; all as the
+    per-variable merge -> "merged"; anything else (e.g. only some variables through temporaries) is reported
+    verbatim and makes the tie fail closed"""
     import numpy as np
-    m = _generate(IF_PROBE, "P")
-    r = np.array(m.dae_residual_function(0, [], [], [0, 0], [3.0, 0.0], [], [])).ravel()
-    b = -float(r[1])
-    return "sequential" if b == 1.0 else ("merged" if b == 2.0 else "unknown:%r" % b)
+    got = []
+    for body, (u, w), _, _ in IF_WITNESSES:
+        m = _generate(IF_PROBE % body, "P")
+        r = np.array(m.dae_residual_function(0, [], [], [0, 0], [u, w], [], [])).ravel()
+        got.append((-float(r[0]), -float(r[1])))
+    if all(g == wit[2] for g, wit in zip(got, IF_WITNESSES)):
+        return "sequential"
+    if all(g == wit[3] for g, wit in zip(got, IF_WITNESSES)):
+        return "merged"
+    return "other:%r" % (got,)
 
 
 def handler(case):
